@@ -22,8 +22,9 @@ class Fn:
 
 
 class Gen:
-    def __init__(self, rng, spell=None):
+    def __init__(self, rng, shapes=True):
         self.rng = rng
+        self.shapes = shapes
         self.lines = []          # (text, tag) ; tag describes the site for injection
         self.lbl = 0
         self.stats = {"functions": 0, "calls": 0, "loops": 0, "ifs": 0, "ecalls": 0, "recursive": 0,
@@ -130,6 +131,98 @@ class Gen:
         self.emit(f"addi sp, sp, {frame}", "epilogue-sp")
         self.emit("ret", "ret")
 
+    # ---- other shapes of conforming functions -------------------------------------------
+    def leaf(self, f):
+        """no frame: only temporaries and arguments, result computed in a0"""
+        r = self.rng
+        self.stats["functions"] += 1
+        self.stats["leaf"] = self.stats.get("leaf", 0) + 1
+        self.emit(f"{f.name}:", None, indent=False)
+        t = r.sample(TEMPS, 2)
+        if f.nargs == 0:
+            self.emit(f"li {t[0]}, {r.choice([1, 4, 9])}", "li-temp")
+        else:
+            self.emit(f"mv {t[0]}, a0", "copy-arg")
+        for i in range(1, f.nargs):
+            self.emit(f"{r.choice(OPS)} {t[0]}, {t[0]}, a{i}", "arith")
+        if r.random() < 0.5:
+            els, end = self.fresh("lelse"), self.fresh("lend")
+            self.emit(f"{r.choice(['beqz', 'bltz'])} {t[0]}, {els}", "branch")
+            self.emit(f"addi a0, {t[0]}, 1", "set-result")
+            self.emit(f"j {end}", "jump")
+            self.emit(f"{els}:", None, indent=False)
+            self.emit(f"li a0, {r.choice([0, -1])}", "set-result")
+            self.emit(f"{end}:", None, indent=False)
+        else:
+            self.emit(f"li {t[1]}, 3", "li-temp")
+            self.emit(f"{r.choice(OPS)} a0, {t[0]}, {t[1]}", "set-result")
+        self.emit(r.choice(["ret", "jr ra", "jalr zero, 0(ra)"]), "ret")
+
+    def passthrough(self, f):
+        """return f(n-1): the inner activation's result is handed back unchanged"""
+        r = self.rng
+        self.stats["functions"] += 1
+        self.stats["recursive"] += 1
+        self.stats["passthrough"] = self.stats.get("passthrough", 0) + 1
+        frame = r.choice([4, 8, 16])
+        off = r.choice(range(0, frame, 4))
+        base, done = self.fresh("pbase"), self.fresh("pdone")
+        self.emit(f"{f.name}:", None, indent=False)
+        self.emit(f"addi sp, sp, -{frame}", "prologue-sp")
+        self.emit(f"sw ra, {off}(sp)", "save")
+        self.emit(f"{r.choice(['beqz', 'blez'])} a0, {base}", "branch")
+        self.emit("addi a0, a0, -1", "arg-setup")
+        self.emit(f"jal {f.name}", "call")
+        self.emit(f"j {done}", "jump")
+        self.emit(f"{base}:", None, indent=False)
+        self.emit(f"li a0, {r.choice([0, 1, 42])}", "set-result")
+        self.emit(f"{done}:", None, indent=False)
+        self.emit(f"lw ra, {off}(sp)", "restore")
+        self.emit(f"addi sp, sp, {frame}", "epilogue-sp")
+        self.emit("ret", "ret")
+
+    def preloop(self, f):
+        """default result before a scan loop; the loop sets a0 only on its 'found' exit"""
+        r = self.rng
+        self.stats["functions"] += 1
+        self.stats["loops"] += 1
+        self.stats["preloop"] = self.stats.get("preloop", 0) + 1
+        regs = r.sample(SAVED, 2)
+        frame = 8 + r.choice([0, 8])
+        head, found, done = self.fresh("scan"), self.fresh("found"), self.fresh("sdone")
+        self.emit(f"{f.name}:", None, indent=False)
+        self.emit(f"addi sp, sp, -{frame}", "prologue-sp")
+        self.emit(f"sw {regs[0]}, 0(sp)", "save")
+        self.emit(f"sw {regs[1]}, 4(sp)", "save")
+        self.emit(f"mv {regs[0]}, a0", "copy-arg")
+        self.emit(f"mv {regs[1]}, a1", "copy-arg")
+        self.emit(f"li a0, {r.choice([0, -1])}", "set-result")
+        self.emit(f"{head}:", None, indent=False)
+        self.emit(f"beqz {regs[1]}, {done}", "branch")
+        self.emit(f"andi t0, {regs[0]}, {r.choice([1, 3, 7])}", "arith")
+        self.emit(f"beqz t0, {found}", "branch")
+        self.emit(f"srli {regs[0]}, {regs[0]}, 1", "arith")
+        self.emit(f"addi {regs[1]}, {regs[1]}, -1", "arith")
+        self.emit(f"j {head}", "jump")
+        self.emit(f"{found}:", None, indent=False)
+        self.emit("li a0, 1", "set-result")
+        self.emit(f"{done}:", None, indent=False)
+        self.emit(f"lw {regs[1]}, 4(sp)", "restore")
+        self.emit(f"lw {regs[0]}, 0(sp)", "restore")
+        self.emit(f"addi sp, sp, {frame}", "epilogue-sp")
+        self.emit("ret", "ret")
+
+    def any_function(self, f, callees):
+        r = self.rng
+        k = r.random() if self.shapes else 1.0
+        if k < 0.15:
+            return self.leaf(f)
+        if k < 0.27 and f.nargs == 1:
+            return self.passthrough(f)
+        if k < 0.40 and f.nargs == 2:
+            return self.preloop(f)
+        return self.function(f, callees, recursive=r.random() < 0.3)
+
     def program(self):
         r = self.rng
         nf = r.randrange(1, 4)
@@ -155,12 +248,12 @@ class Gen:
         self.emit("ecall", "exit")
         for k, f in enumerate(fns):
             # a function may call the functions after it (no cycles) or itself
-            self.function(f, fns[k + 1:], recursive=r.random() < 0.3)
+            self.any_function(f, fns[k + 1:])
         return self.lines
 
 
-def program(rng):
-    g = Gen(rng)
+def program(rng, shapes=True):
+    g = Gen(rng, shapes)
     lines = g.program()
     return lines, g.stats
 
